@@ -15,6 +15,7 @@ import numpy as np
 import z3
 
 from sx.arr import SArr
+from sx.rt import reraise_model_gap  # noqa: F401
 from sx.rt import And, If, Implies, Not, Or, SInt, SReal, Unsupported, count, cur, same_value, tonum, unwrap
 
 import funtracks.candidate_graph.compute_graph as cg
@@ -229,6 +230,7 @@ def _points(ctx, cfg):
     except Unsupported:
         raise
     except Exception as e:
+        reraise_model_gap(e)
         ctx.tag(f"raised:{type(e).__name__}")
         ctx.oblige("C18.builds_without_error", False, "C18")
         return
@@ -283,6 +285,7 @@ def points_replay(f):
         if scale is not None:
             pts = pts * np.array(scale)
     except Exception as e:
+        reraise_model_gap(e)
         return f["obligation"] == "C18.builds_without_error", f"points={pts.tolist()} raised {type(e).__name__}: {e}"
     M = len(pts)
     ob = f["obligation"]
@@ -349,6 +352,7 @@ def _seg(ctx, cfg):
     except Unsupported:
         raise
     except Exception as e:
+        reraise_model_gap(e)
         ctx.tag(f"raised:{type(e).__name__}")
         ctx.oblige("C18.builds_without_error", False, "C18")
         return
@@ -421,6 +425,7 @@ def seg_replay(f):
     try:
         G = compute_graph_from_seg(seg, r, iou=True, scale=scale)
     except Exception as e:
+        reraise_model_gap(e)
         return f["obligation"] == "C18.builds_without_error", f"seg={before.tolist()} raised {type(e).__name__}: {e}"
     ob = f["obligation"]
     detail = f"seg={before.tolist()} r={r} scale={scale} nodes={list(G.nodes(data=True))} edges={list(G.edges(data=True))}"
